@@ -29,6 +29,7 @@ func hCount(quick, thorough int) int {
 func TestVerifC01(t *testing.T) {
 	ck := vNew("C01/language", "seeded random grammars (<=3 nonterminals, <=3 terminals, <=6 rules of length <=3; multiple inputs, no-eoi inputs, empty rules, state markers), all token strings of length <=5 (<=6 thorough), options {plain, optimize, optimize+defaultReduce, minimize, minimize+optimize}", false,
 		"Compile", "compiler.computeStates", "compiler.buildLA", "compiler.populateTables", "Optimize", "minimize")
+	kf17 := vNew("C01/language-minimize-final-states", "same grammars and strings; only the class 'the minimized parser stops early because a final state was merged, while the same options without minimizeDFA agree with the grammar' (known finding F17)", false, "minimize")
 	r := vNewRand(vSeed())
 	n := hCount(1500, 40000)
 	maxLen := hCount(5, 6)
@@ -69,6 +70,25 @@ func TestVerifC01(t *testing.T) {
 						break optLoop
 					}
 					if tr.accept != wantAcc {
+						if o.MinimizeDFA && tr.accept {
+							// Known finding F17 (recorded under C06): minimizeDFA merges the final state of an
+							// input with a bisimilar ordinary state, so the minimized parser stops early. It is
+							// that defect, and not another one, exactly when the same options without
+							// minimizeDFA agree with the grammar and the minimized run is a prefix of that run.
+							po := o
+							po.MinimizeDFA = false
+							if ptb, perr, pp := hCompile(hg.build(), po); pp == "" && perr == nil {
+								a := ptb.hRun(g, in, w, hRunOpts{optimized: o.Optimize})
+								prefix := len(tr.events) <= len(a.events) && fmt.Sprint(a.events[:len(tr.events)]) == fmt.Sprint(tr.events)
+								if a.bad == "" && a.accept == wantAcc && prefix {
+									kf17.Case(true)
+									if kf17.NFail == 0 {
+										kf17.Failf(hg.String(), "opts %+v input %d tokens %q: parser accepts=%v, grammar says %v; without minimizeDFA the parser agrees with the grammar [the minimized parser stops early with the same actions: minimizeDFA merged a final state with another state]", o, in, hStr(w), tr.accept, wantAcc)
+									}
+									continue
+								}
+							}
+						}
 						ck.Failf(hg.String(), "opts %+v input %d tokens %q: parser accepts=%v, grammar says %v", o, in, hStr(w), tr.accept, wantAcc)
 						break optLoop
 					}
@@ -172,7 +192,7 @@ func TestVerifC01(t *testing.T) {
 			}
 		}
 	}
-	vWrite(t, []string{"the table interpreter is a hand transcription of parse/lalr/gotoState in go_parser.go.tmpl", "language oracle: Earley recogniser over grammars whose nonterminals are all productive and reachable"}, ck, fam, mk)
+	vWrite(t, []string{"the table interpreter is a hand transcription of parse/lalr/gotoState in go_parser.go.tmpl", "language oracle: Earley recogniser over grammars whose nonterminals are all productive and reachable"}, ck, kf17, fam, mk)
 }
 
 // ---------- C03 ----------
